@@ -6,6 +6,16 @@ props = [json.loads(l) for l in open(os.path.join(V, "properties.jsonl"))]
 
 MACHINE_NOTE = 'The reference machine (spec/Machine.tla + Values.tla) is a transcription of the intended semantics checked for totality (NotStuck) by TLC; where no language document exists the pinned behaviour is the definition. Numbers outside the modelled domain are not compared.'
 CHECKS = {
+ "C07": dict(
+    level="model_checking",
+    text="Machine.tla models class definition as the VM performs it (variable nil while defining, superclass check, methods copied down at "
+         "definition, the hidden `super` variable, statics in the metaclass only, default and explicit initialisers with Construct, bound "
+         "methods, fields before methods, Self, derives over the declared ancestry). Seeded products over hierarchies of depth 1-3 with "
+         "define / override / super-call / super-value / omit per level, static methods, constructor chains, fields shadowing methods, bound "
+         "methods in variables and fields, superclass rebinding, local classes and all arities are executed by the machine under TLC and "
+         "replayed on checked and optimised builds.",
+    note=MACHINE_NOTE + " Scenario products are built outside TLC; not exhaustive.",
+    technique="TLA+ reference machine (TLC) + scenario products replayed on the implementation", design="4 C07"),
  "C05": dict(
     level="model_checking",
     text="Gen.tla generates programs token by token (operator expressions in reverse Polish order over 13 operand values of every kind; "
